@@ -192,18 +192,19 @@ void h_PLSRegressionStatistics(void)
 #endif
 
 #ifdef VC_UNIT_FORMULAS
-/* R2 / MSE / RMSE / MAE / BIAS against their formulas (ring mode, cells restricted to 0..3 so that no intermediate leaves
- * the int8 range: ring arithmetic is then integer arithmetic with truncating division, the same in the routine and in the
- * formula below).  What is decided: which elements enter which sum, the argument order (prediction - truth), the counts
- * and the denominators; sqrt is an uninterpreted function (stubs/usqrt_stub.c); rounding and the missing-value branch
- * are not decided here. */
+/* R2 / MSE / RMSE / MAE / BIAS against their formulas on exact instances (IEEE mode: integer cells 0..3, 2 or 4 elements,
+ * total sum of squares a power of two): every intermediate of the formulas is then exactly representable, so every
+ * mathematically equivalent evaluation (one-pass / shifted formulas, other summation order) returns the same double and
+ * exact equality is the right obligation.  What is decided: which elements enter which sum, the argument order
+ * (prediction - truth), the counts and the denominators; sqrt is an uninterpreted function (stubs/usqrt_stub.c);
+ * rounding on general data and the missing-value branch are not decided here. */
 #include "statistic.h"
 #include <math.h>
 static double small_cell(void)
 {
   uint64_t v = vc_in_u64();
   VC_ASSUME(v <= 3);
-  return (double)(int8_t)v;
+  return (double)v;
 }
 void h_regression_formulas(void)
 {
@@ -225,10 +226,12 @@ void h_regression_formulas(void)
     syi += p[i] * (t[i] - avg);
     sxi += t[i] * (t[i] - avg);
   }
-  VC_ASSUME(sstot != 0 && sxi != 0); /* the ratios are defined */
+  /* the ratios are defined and exactly representable (sxi equals sstot in exact arithmetic) */
+  VC_ASSUME(sstot == 0.5 || sstot == 1 || sstot == 2 || sstot == 4 || sstot == 8);
   double r2 = R2(yt, yp), mse = MSE(yt, yp), rmse = RMSE(yt, yp), mae = MAE(yt, yp), bias = BIAS(yt, yp);
   VC_CHECK("MSE == sum (prediction - truth)^2 / n", mse == ssreg / (double)VC_N);
-  VC_CHECK("RMSE == sqrt(MSE)", rmse == (double)sqrt(ssreg / (double)VC_N));
+  double h_rmse = sqrt(ssreg / (double)VC_N);
+  VC_CHECK("RMSE == sqrt(MSE)", VC_SAME(rmse, h_rmse));
   VC_CHECK("MAE == sum |prediction - truth| / n", mae == sabs / (double)VC_N);
   VC_CHECK("R2 == 1 - sum (prediction - truth)^2 / sum (truth - mean truth)^2", r2 == 1 - ssreg / sstot);
   double b = 1 - syi / sxi;
